@@ -23,6 +23,7 @@ import (
 	"github.com/33cn/chain33/types"
 	"github.com/decred/base58"
 	ecommon "github.com/ethereum/go-ethereum/common"
+	ecrypto "github.com/ethereum/go-ethereum/crypto"
 	"verif/vrt"
 	"verif/vx"
 )
@@ -240,8 +241,21 @@ func setup() {
 			}
 		}
 	}
+	// public keys the eth driver cannot decompress as secp256k1 points (it then formats the hash of the raw
+	// bytes): a 33-byte key whose x is not on the curve and a 32-byte key of another curve; eth driver only
+	for x := byte(1); ; x++ {
+		cand := append([]byte{2}, append(make([]byte, 31), x)...)
+		if _, err := ecrypto.DecompressPubkey(cand); err != nil {
+			pubs = append(pubs, cand)
+			break
+		}
+	}
+	pubs = append(pubs, ek.PubKey().Bytes())
 	for _, id := range []int32{btc.NormalAddressID, btc.MultiSignAddressID, eth.ID} {
 		for p := range pubs {
+			if p >= 2 && id != eth.ID {
+				continue
+			}
 			for _, h := range []int64{forkFormat - 1, forkFormat} {
 				ops = append(ops, op{Kind: "PubKeyToAddr", ID: id, Pub: p, H: h})
 			}
@@ -335,7 +349,7 @@ func mkSeq() *vx.Seq[*struct{}] {
 func main() {
 	clog.SetLogLevel("crit")
 	r = vx.Start("C19", "model_checking")
-	r.Rule = "BFS over all histories (depth 3 quick / 4 thorough) of queries {address.CheckAddress, dapp.CheckAddress} x 9 addresses (valid btc / multisig / eth lower / eth mixed / utxo outpoint, bad checksum 25 and 26 bytes, bad version, garbage) x heights around the eth enable height and the two address forks x driver-table iteration orders (quick: one per last-visited driver; thorough: all 24), PubKeyToAddr / tx.From at context heights around ForkFormatAddressKey, tx.CheckSign around a crypto enable height; process-global caches kept between queries; state = content of the validity cache and of the btc/multisig/eth public-key caches. Every answer is compared with the answer of the same single query on fresh state under the canonical driver order. distinct = distinct fresh answers"
+	r.Rule = "BFS over all histories (depth 3 quick / 4 thorough) of queries {address.CheckAddress, dapp.CheckAddress} x 9 addresses (valid btc / multisig / eth lower / eth mixed / utxo outpoint, bad checksum 25 and 26 bytes, bad version, garbage) x heights around the eth enable height and the two address forks x driver-table iteration orders (quick: one per last-visited driver; thorough: all 24), PubKeyToAddr (two secp256k1 keys for every driver; for the eth driver also a 33-byte key that is not a curve point and a 32-byte ed25519 key) / tx.From at context heights around ForkFormatAddressKey, tx.CheckSign around a crypto enable height; process-global caches kept between queries; state = content of the validity cache and of the btc/multisig/eth public-key caches. Every answer is compared with the answer of the same single query on fresh state under the canonical driver order. distinct = distinct fresh answers"
 	r.Assume = []string{
 		"three configurations: address.enableHeight.eth=10; eth=-1 (driver switched off); eth=10 with the utxo driver gated at 10 as well; ForkMultiSignAddress=20, ForkBase58AddressCheck=30, ForkFormatAddressKey=40, crypto.enableHeight.ed25519=5 (set through address.Init / crypto.Init / cfg.SetFork)",
 		"fresh-process state is emulated by purging the package caches through add-only overlay shims; the iteration order of address.drivers is owned by vinstr rule maprange (vrt.MapOrder)",
